@@ -24,7 +24,9 @@ type Variant struct {
 	Edits           []Edit `json:"edits"`
 	RegenGrammar    bool   `json:"regen_grammar,omitempty"`
 	Patch           string `json:"patch,omitempty"` // unified diff, path relative to /verif (a seeded change of /verif/seeded)
-	path            string
+	// ExpectSilent marks a behaviour-preserving refactoring: the property's check must report nothing on it.
+	ExpectSilent bool `json:"expect_silent,omitempty"`
+	path         string
 }
 
 type Edit struct {
@@ -151,10 +153,25 @@ func runSelftest(prop string, par int) []selfResult {
 				res[i] = selfResult{v.ID, "skipped", strings.TrimSpace(string(out))}
 				return
 			}
+			rfs, _ := filepath.Glob(filepath.Join(tmp, "replay", prop+"-*.json"))
+			if v.ExpectSilent {
+				if code == 0 && len(rfs) == 0 {
+					res[i] = selfResult{v.ID, "silent", "behaviour-preserving refactoring: no report"}
+				} else {
+					var seen []string
+					for _, rf := range rfs {
+						b, _ := os.ReadFile(rf)
+						var r replayFile
+						json.Unmarshal(b, &r)
+						seen = append(seen, r.Ob.Rule+":"+r.Ob.Key)
+					}
+					res[i] = selfResult{v.ID, "missed", fmt.Sprintf("FALSE ALARM on a behaviour-preserving refactoring: exit %d; reported %v; %s", code, seen, lastLines(string(out), 3))}
+				}
+				return
+			}
 			// read replay files for the expected rule
 			hit := false
 			var seen []string
-			rfs, _ := filepath.Glob(filepath.Join(tmp, "replay", prop+"-*.json"))
 			for _, rf := range rfs {
 				b, _ := os.ReadFile(rf)
 				var r replayFile
@@ -211,19 +228,21 @@ func thorough(prop string, r *Report) {
 	}
 	// (b) seeded variants
 	res := runSelftest(prop, 6)
-	det, miss, skip := 0, 0, 0
+	det, miss, skip, silent := 0, 0, 0, 0
 	for _, s := range res {
 		switch s.Outcome {
+		case "silent":
+			silent++
 		case "detected":
 			det++
 		case "missed":
 			miss++
-			r.Undecided("SELFTEST", s.Variant, "", "seeded variant not reported by the rule that should see it: "+s.Detail)
+			r.Undecided("SELFTEST", s.Variant, "", "self-test variant: expected verdict not obtained (a seeded change not reported by its rule, or a report on a behaviour-preserving refactoring): "+s.Detail)
 		default:
 			skip++
 		}
 	}
-	r.Extra["selftest"] = map[string]any{"variants": len(res), "detected": det, "missed": miss, "skipped": skip, "results": res}
+	r.Extra["selftest"] = map[string]any{"variants": len(res), "detected": det, "silent_on_refactorings": silent, "missed": miss, "skipped": skip, "results": res}
 }
 
 func cmdSelftest(args []string) int {
